@@ -198,6 +198,66 @@ pub fn base_configs(tier: Tier, seed: u64) -> Vec<Scenario> {
     v
 }
 
+/// user requests (what, at the receiver?, counted on direction 0->1?, ordinal, length) and an optional blackout on top of a scenario
+pub fn add_chaos(mut sc: Scenario, cmds: &[(u8, bool, bool, u32, u64)], blackout: Option<(u32, u8)>) -> Scenario {
+            for &(what, at_recv, dir, k, len) in cmds {
+                let who = if at_recv { 1 } else { 0 };
+                let trigger = Trigger::OnOrdinal { from: if dir { 0 } else { 1 }, to: if dir { 1 } else { 0 }, ordinal: if dir { k } else { k % 5 }, delay_ms: len % 3 };
+                match what {
+                    0 => sc.actions.push(Action { trigger, entity: who, kind: ActionKind::Cancel { put: 0 } }),
+                    1 => {
+                        sc.actions.push(Action { trigger, entity: who, kind: ActionKind::Suspend { put: 0 } });
+                        sc.actions.push(Action {
+                            trigger: Trigger::OnIndication { entity: who, put: 0, kind: "suspended".into(), delay_ms: len },
+                            entity: who,
+                            kind: ActionKind::Resume { put: 0 },
+                        });
+                    }
+                    2 => sc.actions.push(Action { trigger, entity: 0, kind: ActionKind::PromptNak { put: 0 } }),
+                    3 => sc.actions.push(Action { trigger, entity: 0, kind: ActionKind::PromptKeepAlive { put: 0 } }),
+                    _ => sc.actions.push(Action { trigger, entity: who, kind: ActionKind::Report { put: 0 } }),
+                }
+            }
+            if let Some((k, which)) = blackout {
+                match which {
+                    0 => sc.blackouts.push(Blackout::from_ordinal(0, 1, k)),
+                    1 => sc.blackouts.push(Blackout::from_ordinal(1, 0, k % 6)),
+                    _ => sc.blackouts.push(Blackout::of_kinds(1, 0, &[Kind::Finished])),
+                }
+            }
+            sc.health_check = true;
+            sc.horizon_ms = 3 * bound_ms(&sc, 0).max(bound_ms(&sc, 1)) + 20_000;
+    sc
+}
+
+/// E4: the chaos family from a libFuzzer choice tape; judged by the same oracle (+ C01's identity clause)
+pub fn chaos_from_bytes(data: &[u8]) -> C03Case {
+    let mut t = crate::wire::Tape::new(data);
+    let sc = scenario_from_tape(&mut t);
+    let n = t.below(4);
+    let mut cmds = vec![];
+    for _ in 0..n {
+        cmds.push((t.below(5) as u8, t.bool(), t.bool(), t.below(14) as u32, t.below(3000) as u64));
+    }
+    let blackout = if t.bool() { Some((t.below(14) as u32, t.below(3) as u8)) } else { None };
+    C03Case { sc: add_chaos(sc, &cmds, blackout) }
+}
+
+pub fn judge_chaos(case: &C03Case) -> Option<Fail> {
+    let sc = &case.sc;
+    let tr = run_scenario(sc);
+    if let Some(f) = common_failures(sc, &tr) {
+        return Some(f);
+    }
+    if let Err(f) = check_termination(sc, &tr) {
+        return Some(f);
+    }
+    if let Err(f) = super::c01::check_delivered_equals_source(sc, &tr, 0) {
+        return Some(f);
+    }
+    None
+}
+
 pub fn run(ctx: &mut Ctx) {
     ctx.rule = "grid: both modes x closure x 6 NAK procedures x 4 fault-handler sets {default, abandon, cancel, mixed} x sizes {0,40,100} with limits 1..3 and timeouts 1..4 s drawn \
 per configuration. Per configuration (after a fault-free baseline): blackout of 0->1, of 1->0 and of both from every ordinal 0..=n (exhaustive); a direction that never passes one PDU kind \
@@ -305,38 +365,17 @@ prompt NAK / keep-alive, report) triggered at random datagram ordinals and an op
         proptest::collection::vec((0u8..5, any::<bool>(), any::<bool>(), 0u32..14, 0u64..3000), 0..4),
         proptest::option::of((0u32..14, 0u8..3)),
     )
-        .prop_map(|(mut sc, cmds, blackout)| {
-            for (what, at_recv, dir, k, len) in cmds {
-                let who = if at_recv { 1 } else { 0 };
-                let trigger = Trigger::OnOrdinal { from: if dir { 0 } else { 1 }, to: if dir { 1 } else { 0 }, ordinal: if dir { k } else { k % 5 }, delay_ms: len % 3 };
-                match what {
-                    0 => sc.actions.push(Action { trigger, entity: who, kind: ActionKind::Cancel { put: 0 } }),
-                    1 => {
-                        sc.actions.push(Action { trigger, entity: who, kind: ActionKind::Suspend { put: 0 } });
-                        sc.actions.push(Action {
-                            trigger: Trigger::OnIndication { entity: who, put: 0, kind: "suspended".into(), delay_ms: len },
-                            entity: who,
-                            kind: ActionKind::Resume { put: 0 },
-                        });
-                    }
-                    2 => sc.actions.push(Action { trigger, entity: 0, kind: ActionKind::PromptNak { put: 0 } }),
-                    3 => sc.actions.push(Action { trigger, entity: 0, kind: ActionKind::PromptKeepAlive { put: 0 } }),
-                    _ => sc.actions.push(Action { trigger, entity: who, kind: ActionKind::Report { put: 0 } }),
-                }
-            }
-            if let Some((k, which)) = blackout {
-                match which {
-                    0 => sc.blackouts.push(Blackout::from_ordinal(0, 1, k)),
-                    1 => sc.blackouts.push(Blackout::from_ordinal(1, 0, k % 6)),
-                    _ => sc.blackouts.push(Blackout::of_kinds(1, 0, &[Kind::Finished])),
-                }
-            }
-            sc.health_check = true;
-            sc.horizon_ms = 3 * bound_ms(&sc, 0).max(bound_ms(&sc, 1)) + 20_000;
-            C03Case { sc }
-        });
+        .prop_map(|(sc, cmds, blackout)| C03Case { sc: add_chaos(sc, &cmds, blackout) });
     ctx.section = "chaos-user-requests+faults".into();
     let n = ctx.tier.pick(40_000u64, 500_000);
     ctx.drive_proptest(&part, chaos, n, 200);
     ctx.section.clear();
+    if ctx.tier == Tier::Thorough {
+        // E4: the same family, coverage-guided over the choice tape
+        crate::fuzzrun::campaign_into_ctx(ctx, &crate::fuzzrun::Campaign { target: "sim_chaos", runs: 60_000, max_len: 96 }, |data| {
+            let case = chaos_from_bytes(data);
+            let fail = guarded(|| judge_chaos(&case)).unwrap_or_else(|p| Some(Fail { key: panic_site(&p), msg: p }));
+            (fail, serde_json::to_value(&case).unwrap(), "termination")
+        });
+    }
 }
